@@ -137,6 +137,13 @@ func mkBaseErr(o Outcome, k int, where string) error {
 			return &exterrors.SMTPError{Code: 553, EnhancedCode: exterrors.EnhancedCode{5, 1, 3}, Message: "permfail with U+0080 [\u0080] " + where}
 		case 5:
 			return &exterrors.SMTPError{Code: 552, EnhancedCode: exterrors.EnhancedCode{5, 3, 4}, Message: "permfail too big " + where, Reason: "reason " + SecretMarker}
+		case 6:
+			// a lookup that ran out of time below a permanent classification
+			// (what a check with `fail_action reject 550 ...` makes of its
+			// resolver's deadline). The endpoint answers deadline errors with
+			// its own "high load" reply; whatever it answers has to be coherent
+			// (the text carries no class word: only coherence is judged)
+			return &exterrors.SMTPError{Code: 550, EnhancedCode: exterrors.EnhancedCode{5, 7, 1}, Message: "lookup did not finish " + where, CheckName: "scripted", Err: fmt.Errorf("resolver %s: %w", SecretMarker, context.DeadlineExceeded)}
 		default:
 			return &exterrors.SMTPError{Code: 550, EnhancedCode: exterrors.EnhancedCode{5, 7, 0}, Message: "permfail policy " + where, CheckName: "scripted", Misc: map[string]interface{}{"detail": SecretMarker}}
 		}
